@@ -17,6 +17,38 @@ from vlib import harness as H          # noqa: E402
 from vlib.runner import Ctx            # noqa: E402
 
 
+def replay(ctx, path):
+    """Re-run a replay file written on violation: scenario files go through the ASan harness (event log and
+    sanitizer findings are printed); other witnesses (sweeps, thread inputs) are printed with their instructions."""
+    text = open(path).read()
+    print("".join(ln + "\n" for ln in text.split("\n") if ln.startswith("#")))
+    if "\nSCN " not in "\n" + text:
+        print("(no scenario script in this replay file; see the comment lines above)")
+        return 0
+    binary = H.build(ctx.work, "asan")
+    plain = H.build(ctx.work, "plain")
+    body = "\n".join(ln for ln in text.split("\n") if not ln.startswith("#")) + "\n"
+    import subprocess
+    for name, b in (("asan", binary), ("plain", plain)):
+        scn = os.path.join(ctx.work.path, "replay.scn")
+        log = os.path.join(ctx.work.path, "replay-%s.log" % name)
+        open(scn, "w").write(body)
+        env = dict(os.environ)
+        env.update(H.SAN_ENV)
+        env["ASAN_OPTIONS"] += ":detect_leaks=1"
+        subprocess.run([b, scn, log, "--cpu-limit", "120"], env=env)
+        print("==== %s build" % name)
+        for sc in H.parse_log(log):
+            print("scenario %s: %s %s, %d inputs, cpu %d ms" % (sc.sid, sc.status, sc.code, len(sc.inputs), sc.cpu_ms))
+            for key, txt in H.sanitizer_findings(sc.stderr):
+                print("  finding %s\n%s" % (key, txt))
+            for inp in sc.inputs[-40:]:
+                print("  input %d %s iface %d -> %s" % (inp.n, inp.op, inp.iface, inp.out))
+                for e in inp.ev[:12]:
+                    print("     ", e[0], *[x.hex() if isinstance(x, (bytes, bytearray)) else x for x in e[1:]])
+    return 0
+
+
 def main():
     ap = argparse.ArgumentParser()
     ap.add_argument("pid")
@@ -31,7 +63,7 @@ def main():
     rc = 2
     try:
         if a.replay:
-            rc = mod.replay(ctx, a.replay)
+            rc = replay(ctx, a.replay)
         else:
             mod.run(ctx)
             rc = ctx.report.finish()
